@@ -204,6 +204,31 @@ var violations = []violation{
 		p["min"], p["max"] = 2, 1
 		return true
 	}},
+	{"levels-threshold-value-missing", func(r *Rng, b J, q *Req) bool {
+		// explicit aspiration levels must name every criterion: a level that lacks one (left out, or given under a
+		// misspelt key so that the number of entries still matches) is a missing value
+		if q.Method != "aspectEliminationHeuristic" && q.Method != "satisfactionHeuristic" {
+			return false
+		}
+		delete(b, "biases")
+		var ts []interface{}
+		for i := 0; i < 2; i++ {
+			t := J{}
+			for _, c := range q.Problem.Criteria {
+				t[c.Id] = float64(r.Intn(9))
+			}
+			ts = append(ts, t)
+		}
+		victim := q.Problem.Criteria[r.Intn(len(q.Problem.Criteria))].Id
+		t := ts[r.Intn(2)].(J)
+		v := t[victim]
+		delete(t, victim)
+		if r.chance(0.6) {
+			t[victim+"x"] = v
+		}
+		mpOf(b)["function"], mpOf(b)["params"] = "thresholds", J{"thresholds": ts}
+		return true
+	}},
 	{"levels-coefficient-out-of-range", func(r *Rng, b J, q *Req) bool {
 		if q.Method != "aspectEliminationHeuristic" && q.Method != "satisfactionHeuristic" {
 			return false
@@ -306,6 +331,12 @@ func weirdBodies(r *Rng, q *Req) []J {
 		b["biases"] = []interface{}{J{"name": "criteriaOmission", "props": J{"ratio": 0.5, "min": "one"}}}
 	})
 	mk(func(b J) { b["biasApplyRandomSeed"] = 9.3e18 })
+	mk(func(b J) { // ELECTRE thresholds for a criterion nobody declared (ignored by the method, whatever they say)
+		if ec, ok := b["methodParameters"].(map[string]interface{})["electreCriteria"].(map[string]interface{}); ok {
+			ec["zz_undeclared"] = map[string]interface{}{"k": []float64{-4, 0, 2.5}[r.Intn(3)]}
+			delete(b, "biases")
+		}
+	})
 	mk(func(b J) { // an alternative with a value for a criterion nobody declared (owa / Choquet fail while scoring it)
 		if ka, ok := b["knownAlternatives"].([]interface{}); ok {
 			for _, a := range ka {
